@@ -47,7 +47,7 @@ def handleCompile (st : St) (op : String) (j : Json) : Option (D (St × Json)) :
         | .noToken => "noToken"
         | .noNumber => "noNumber"
         | .badInt => "badInt"
-        | .fuel => "fuel"))]))
+        | .fuel => "fuel")), ("plain", Json.bool (decide (PlainNumbers expr)))]))
     | .ok oe =>
       let d := compileDfa oe
       let reSame := match oe, specParse table expr with
@@ -55,7 +55,8 @@ def handleCompile (st : St) (op : String) (j : Json) : Option (D (St × Json)) :
         | some e, .ok r => e.toRE == r
         | _, _ => false
       let base := [("parse", Json.str "ok"), ("dfa", eDfa d.bfs), ("dfaRaw", eDfa d),
-        ("dead", Json.bool (d.hasDeadEnd (fun a => gen.getD a false))), ("reSame", Json.bool reSame)]
+        ("dead", Json.bool (d.hasDeadEnd (fun a => gen.getD a false))), ("reSame", Json.bool reSame),
+        ("plain", Json.bool (decide (PlainNumbers expr)))]
       let extra := match oe with
         | none => [("ast", Json.null), ("nfa", Json.null), ("nullFrom", Json.null)]
         | some e => [("ast", eExpr e), ("nfa", eNfa (nfa e)), ("wf", Json.bool e.wf),
